@@ -15,6 +15,11 @@ impl EndpointHandler<Log> for H {
         arg.0.lock().unwrap().push(self.0);
         let mut r = Response::new(Version::Http11, StatusCode::OK);
         r.set_body(micro_http::Body::new(format!("h{}", self.0)));
+        if self.0 % 2 == 1 {
+            // a handler with its own ideas: the router stamps every response all the same
+            r.set_content_type(micro_http::MediaType::PlainText);
+            r.set_server("handler-own");
+        }
         r
     }
 }
@@ -32,7 +37,7 @@ fn mname(m: Method) -> &'static str {
     }
 }
 
-fn case(prefix: &str, regs: &[(usize, usize)], t: &mut crate::par::Tally) {
+fn case(prefix: &str, regs: &[(usize, usize)], pair_tables: usize, t: &mut crate::par::Tally) {
     // the configured identity varies with the case (incl. the empty one and one with a space)
     let server_id = ["router-id", "", "srv 2"][(regs.len() + regs.iter().map(|(m, p)| m + p).sum::<usize>()) % 3];
     let mut router: HttpRoutes<Log> = HttpRoutes::new(server_id.to_string(), prefix.to_string());
@@ -61,44 +66,69 @@ fn case(prefix: &str, regs: &[(usize, usize)], t: &mut crate::par::Tally) {
     targets.push("/p:/a".into());
     targets.sort();
     targets.dedup();
-    for (mi, m) in METHODS.iter().enumerate() {
+    let mut reqs: Vec<(usize, String)> = vec![];
+    for (mi, _) in METHODS.iter().enumerate() {
         for tpath in &targets {
             for absolute in [false, true] {
                 let uri = if absolute { format!("http://h{}", tpath) } else { tpath.clone() };
                 if uri.is_empty() || uri.contains(' ') {
                     continue;
                 }
-                let bytes = format!("{} {} HTTP/1.1\r\n\r\n", mname(*m), uri).into_bytes();
-                let req = match Request::try_from(&bytes, None) {
-                    Ok(r) => r,
-                    Err(_) => continue,
-                };
-                // the request's absolute path by the documented rule
-                let abs = crate::props::c16::abs_path(&uri).to_string();
-                let want = reference.get(&(mi, abs.clone())).cloned();
-                let log = Log(Mutex::new(vec![]));
-                let resp = router.handle_http_request(&req, &log);
-                let calls = log.0.lock().unwrap().clone();
-                t.evals += 1;
-                if want.is_some() {
-                    t.nontrivial += 1;
+                reqs.push((mi, uri));
+            }
+        }
+    }
+    let dispatch = |mi: usize, uri: &str, when: &str, t: &mut crate::par::Tally| {
+        let m = &METHODS[mi];
+        let bytes = format!("{} {} HTTP/1.1\r\n\r\n", mname(*m), uri).into_bytes();
+        let req = match Request::try_from(&bytes, None) {
+            Ok(r) => r,
+            Err(_) => return,
+        };
+        // the request's absolute path by the documented rule
+        let abs = crate::props::c16::abs_path(uri).to_string();
+        let want = reference.get(&(mi, abs.clone())).cloned();
+        let log = Log(Mutex::new(vec![]));
+        let resp = router.handle_http_request(&req, &log);
+        let calls = log.0.lock().unwrap().clone();
+        t.evals += 1;
+        if want.is_some() {
+            t.nontrivial += 1;
+        }
+        let want_calls: Vec<usize> = want.into_iter().collect();
+        if calls != want_calls {
+            t.violate("dispatch", format!("{} {} (abs path {:?}) with prefix {:?} and registrations {:?}{}: handlers invoked {:?}, expected {:?}", mname(*m), uri, abs, prefix, regs.iter().map(|(m, p)| format!("{} {}", mname(METHODS[*m]), PATHS[*p])).collect::<Vec<_>>(), when, calls, want_calls), json!({"engine": "c17", "prefix": prefix, "regs": regs}));
+            return;
+        }
+        let mut b = vec![];
+        resp.write_all(&mut b).unwrap();
+        match read_one(&b) {
+            ReadResult::Complete(p) => {
+                let code_ok = if want_calls.is_empty() { p.code == 404 } else { p.code == 200 && p.body == format!("h{}", want_calls[0]).into_bytes() };
+                if !code_ok || p.header("Server").map(|x| x.trim()) != Some(server_id.trim()) || p.header("Content-Type") != Some("application/json") {
+                    t.violate("stamp", format!("response for {} {}{}: code {} Server {:?} Content-Type {:?} body {:?}", mname(*m), uri, when, p.code, p.header("Server"), p.header("Content-Type"), util::show(&p.body)), json!({"engine": "c17", "prefix": prefix, "regs": regs}));
                 }
-                let want_calls: Vec<usize> = want.into_iter().collect();
-                if calls != want_calls {
-                    t.violate("dispatch", format!("{} {} (abs path {:?}) with prefix {:?} and registrations {:?}: handlers invoked {:?}, expected {:?}", mname(*m), uri, abs, prefix, regs.iter().map(|(m, p)| format!("{} {}", mname(METHODS[*m]), PATHS[*p])).collect::<Vec<_>>(), calls, want_calls), json!({"engine": "c17", "prefix": prefix, "regs": regs}));
+            }
+            other => t.violate("stamp", format!("router response unreadable: {:?}", other), json!({"engine": "c17", "prefix": prefix, "regs": regs})),
+        }
+    };
+    // one router serves all requests: in enumeration order, then in the reverse order (what a
+    // request gets does not depend on the requests served before it)
+    for (mi, uri) in &reqs {
+        dispatch(*mi, uri, "", t);
+    }
+    for (mi, uri) in reqs.iter().rev() {
+        dispatch(*mi, uri, " (second pass, reverse order)", t);
+    }
+    // small tables: every ordered pair of requests back to back on the same router
+    if regs.len() <= pair_tables {
+        for (i, (mi, uri)) in reqs.iter().enumerate() {
+            for (j, (mj, urj)) in reqs.iter().enumerate() {
+                if i == j || !t.violations.is_empty() {
                     continue;
                 }
-                let mut b = vec![];
-                resp.write_all(&mut b).unwrap();
-                match read_one(&b) {
-                    ReadResult::Complete(p) => {
-                        let code_ok = if want_calls.is_empty() { p.code == 404 } else { p.code == 200 && p.body == format!("h{}", want_calls[0]).into_bytes() };
-                        if !code_ok || p.header("Server").map(|x| x.trim()) != Some(server_id.trim()) || p.header("Content-Type") != Some("application/json") {
-                            t.violate("stamp", format!("response for {} {}: code {} Server {:?} Content-Type {:?} body {:?}", mname(*m), uri, p.code, p.header("Server"), p.header("Content-Type"), util::show(&p.body)), json!({"engine": "c17", "prefix": prefix, "regs": regs}));
-                        }
-                    }
-                    other => t.violate("stamp", format!("router response unreadable: {:?}", other), json!({"engine": "c17", "prefix": prefix, "regs": regs})),
-                }
+                dispatch(*mi, uri, " (pairs)", t);
+                dispatch(*mj, urj, &format!(" (directly after {} {})", mname(METHODS[*mi]), uri), t);
             }
         }
     }
@@ -107,7 +137,7 @@ fn case(prefix: &str, regs: &[(usize, usize)], t: &mut crate::par::Tally) {
 pub fn replay(v: &serde_json::Value) -> (bool, serde_json::Value) {
     let mut t = crate::par::Tally::default();
     let regs: Vec<(usize, usize)> = v["regs"].as_array().unwrap().iter().map(|x| (x[0].as_u64().unwrap() as usize, x[1].as_u64().unwrap() as usize)).collect();
-    case(v["prefix"].as_str().unwrap(), &regs, &mut t);
+    case(v["prefix"].as_str().unwrap(), &regs, 2, &mut t);
     (!t.violations.is_empty(), json!({"violations": t.violations.iter().map(|v| v.detail.clone()).collect::<Vec<_>>()}))
 }
 
@@ -116,7 +146,7 @@ pub fn run(thorough: bool) -> Vec<Part> {
         return vec![];
     }
     let mut part = Part::new("C17", "router-tables-r", "exploration");
-    part.assume("prefixes {``, `/p`, `/q/`} x all registration sequences of length <= N (N = 4 quick, 5 thorough) over 3 methods x paths {``, `/`, `/a`, `/a/b`, `/a:b`, `/ab`} (duplicates included) x all requests over 3 methods x (prefix+path, bare path, trailing-slash and doubled-prefix near misses) in origin form and `http://h...` absolute form; handlers record their invocations through the argument; reference = map (method, prefix+path) -> first registered handler");
+    part.assume("prefixes {``, `/p`, `/q/`} x all registration sequences of length <= N (N = 4 quick, 5 thorough) over 3 methods x paths {``, `/`, `/a`, `/a/b`, `/a:b`, `/ab`} (duplicates included) x all requests over 3 methods x (prefix+path, bare path, trailing-slash and doubled-prefix near misses) in origin form and `http://h...` absolute form; handlers record their invocations through the argument; reference = map (method, prefix+path) -> first registered handler; every second handler sets its own content type and server identity; all requests of a table go to one router, in enumeration order and again in reverse order; for tables of <= 1 (thorough: 2) registrations every ordered pair of requests is served back to back");
     let n = if thorough { 5 } else { 4 };
     let r = (METHODS.len() * PATHS.len()) as u64;
     let mut total = 0u64;
@@ -142,7 +172,7 @@ pub fn run(thorough: bool) -> Vec<Part> {
                 i /= r;
                 regs.push((x % 3, x / 3));
             }
-            case(prefix, &regs, t);
+            case(prefix, &regs, if thorough { 2 } else { 1 }, t);
             if d == 3 && i == 0 && t.samples.is_empty() {
                 t.sample(json!({"prefix": prefix, "registrations": regs.iter().map(|(m, p)| format!("{} {:?}", mname(METHODS[*m]), PATHS[*p])).collect::<Vec<_>>()}));
             }
